@@ -4,7 +4,7 @@ from checks.generic import standard, compile_gen, first_index, COMMON_TRUSTED
 
 PROPS = ["c20_published", "c20_published_sites", "c20_site_verdict_needed", "c20_issue_delivered",
          "c20_nonblocking", "c20_order", "c20_order_complete",
-         "c20_roundtrip", "c20_expire", "c20_expire_only_old", "c20_history",
+         "c20_roundtrip", "c20_expire", "c20_expire_only_old", "c20_history", "c20_loop_request", "c20_loop_saved",
          "c20_old_aws_refuted", "c20_old_roundtrip_refuted", "c20_old_expire_refuted"]
 
 TRUSTED = [
@@ -46,7 +46,7 @@ def run(ctx):
         ok, result, log = f1.result()
         rec_ok, rec_result, rec_log = f2.result()
     if compile_gen(ctx, names=("Tables.v",)):
-        ctx.gen_obligations("Obl_C20.v", ["c20_sites_publish", "c20_sites_reported", "c20_sites_cover", "c20_sends_nonblocking"])
+        ctx.gen_obligations("Obl_C20.v", ["c20_sites_cover", "c20_sends_nonblocking", "c20_sites_publish", "c20_sites_reported"])
     jobs = []
     if result is not None:
         jobs.append(("CasesC20.v", "c20_hist_mismatches", "CasesC20.idx",
@@ -56,6 +56,9 @@ def run(ctx):
         for n in ["CasesC20R.v"] + ["CasesC20R_%d.v" % i for i in range(1, shards)]:
             jobs.append((n, "c20r_mismatches", "CasesC20R.idx",
                          "recorder (" + n + "): expiry flags and per-user lists after every save/reload and at the end = model (%s operations)", "c20r_ncases"))
+    if rec_result is not None:
+        jobs.append(("CasesC20L.v", "c20l_mismatches", "CasesC20L.idx",
+                     "recorder event loop: every history answer and every saved file = model (%s scenarios)", "c20l_ncases"))
     with ThreadPoolExecutor(max_workers=4) as ex:
         outs = list(ex.map(lambda j: ctx.eval_cases(os.path.join(ctx.work, j[0]), "c20_vs_model:" + j[0]), jobs))
     for j, res in zip(jobs, outs):
